@@ -37,7 +37,7 @@ Definition opt_eqb (a b : option (list Z)) : bool :=
 (* The hypotheses of the theorems C04_program_write / C04_selection_meets_spec, CHECKED on this case's file:
    the extractor the model builds from the raw bytes is well-formed (Inv), wide enough, and its abstraction is
    the one the generator's records define (gview).  With them the theorems cover EVERY program on this file.
-   Not checked for CRLF delimited files: there the extractor of the code at HEAD is not well-formed (a record
+   Not checked for CRLF delimited files while [v_crlf current = false]: there the extractor of the code at HEAD is not well-formed (a record
    stops before its '\n' — finding C04-crlf-delimited-selection-drops-newline), and not for GTF (read eagerly). *)
 Definition is_lf (r : grec) : bool := match g_eol r with [] => true | [10] => true | _ => false end.
 Definition hyp_ok (c : case) : bool :=
@@ -45,7 +45,7 @@ Definition hyp_ok (c : case) : bool :=
   match f with
   | FGtf => true
   | _ =>
-      match f, forallb is_lf (k_recs c) with
+      match f, forallb is_lf (k_recs c) || v_crlf current with
       | FDelim _, false => true
       | FVcf _, false => true
       | _, _ =>
